@@ -35,6 +35,19 @@ ShapeS(n) ==
 
 AllLexed(r) == \A i \in 1 .. Len(r.lex) : r.lex[i][3] >= 0
 
+\* lexically ambiguous input: the harness supplies the token lattice
+\* r.lat = [start, end, edges = <<<<i, t, j>>, ...>>] (nodes: byte offsets after white space)
+LatOf(r) == [start |-> r.lat.start, end |-> r.lat.end,
+             edges |-> {<<r.lat.edges[k][1], r.lat.edges[k][2], r.lat.edges[k][3]>> : k \in 1 .. Len(r.lat.edges)}]
+\* the leaves of a tree spell a path through the lattice
+PathOK(lat, l) ==
+  /\ IF Len(l) = 0 THEN lat.start = lat.end ELSE l[1].s = lat.start
+  /\ \A k \in 1 .. Len(l) : <<l[k].s, l[k].t, IF k < Len(l) THEN l[k + 1].s ELSE lat.end>> \in lat.edges
+IsDerivationLat(C, n, lat) ==
+  /\ n.k = "n" /\ Lhs(C.G, n.p) = C.G.start
+  /\ WellFormedTree(C, n, TRUE)
+  /\ PathOK(lat, Leaves(n))
+
 Monitors(r) ==
   LET g2 == r.g2
       T  == Dumps[g2].t
@@ -42,20 +55,24 @@ Monitors(r) ==
       w  == LexKinds(r.lex)
       meta == Dumps[g2].meta
       gok  == r.gres.k = "ok"
-      sent == AllLexed(r) /\ Sentence(C, w, 0)
+      islat == r.meta.lat
+      lat  == IF islat THEN LatOf(r) ELSE [start |-> 0, end |-> 0, edges |-> {}]
+      sent == IF islat THEN SentenceLat(C, lat, 0) ELSE AllLexed(r) /\ Sentence(C, w, 0)
       vl   == ViableLen(C, w, 0)
       f    == r.forest
       trees == f.trees
       inScope == meta.plain /\ ~Cyc[g2] /\ ~EpsAmb[g2]
       shapes == {Shape(trees[i]) : i \in 1 .. Len(trees)}
-      nexp == IF inScope /\ sent /\ Len(w) <= 12 THEN NTrees(C, w) ELSE -1
+      nexp == IF ~(inScope /\ sent) THEN -1
+              ELSE IF islat THEN NTreesLat(C, lat)
+              ELSE IF Len(w) <= 12 THEN NTrees(C, w) ELSE -1
+      IsDer(t) == IF islat THEN IsDerivationLat(C, t, lat) ELSE IsDerivation(C, t, w, TRUE)
       c03 ==
         (IF gok /\ ~sent THEN {<<"accepted_nonsentence">>} ELSE {})
         \cup (IF inScope /\ sent /\ ~gok /\ ~r.partial THEN {<<"rejected_sentence", r.gres.k>>} ELSE {})
         \cup (IF gok /\ ~r.partial
-              THEN (IF \A i \in 1 .. Len(trees) : IsDerivation(C, trees[i], w, TRUE) THEN {}
-                    ELSE {<<"tree_is_not_a_derivation",
-                            CHOOSE i \in 1 .. Len(trees) : ~IsDerivation(C, trees[i], w, TRUE)>>})
+              THEN (IF \A i \in 1 .. Len(trees) : IsDer(trees[i]) THEN {}
+                    ELSE {<<"tree_is_not_a_derivation", CHOOSE i \in 1 .. Len(trees) : ~IsDer(trees[i])>>})
                    \cup (IF Cyc[g2] \/ EpsAmb[g2] \/ Cardinality(shapes) = Len(trees) THEN {}
                          ELSE {<<"duplicate_tree", Len(trees), Cardinality(shapes)>>})
                    \cup (IF nexp < 0 \/ f.n = nexp THEN {} ELSE {<<"solutions_differ", f.n, nexp>>})
@@ -78,7 +95,7 @@ Monitors(r) ==
                                    ELSE {<<"trees_differ">>})
                         ELSE {})
       expOff == IF vl < Len(w) THEN r.lex[vl + 1][1] ELSE Len(r.bytes)
-      c12 == IF r.gres.k # "err" \/ r.partial \/ ~meta.plain \/ ~Reduced(T, C.P) THEN {}
+      c12 == IF r.gres.k # "err" \/ r.partial \/ ~meta.plain \/ ~Reduced(T, C.P) \/ islat THEN {}
              ELSE (IF r.gres.o = expOff THEN {} ELSE {<<"error_offset", r.gres.o, expOff>>})
                   \cup (IF PosOK(r.bytes, r.gres.o, r.gres.l, r.gres.c) THEN {}
                         ELSE {<<"error_linecol", r.gres.o, r.gres.l, r.gres.c>>})
